@@ -84,7 +84,15 @@ fn sum_hash(v: &[HTLCInfo2], h: &PaymentHash) -> u64 {
 
 impl Hist {
     fn new(rng: &mut Rng, shard: usize, index: u64) -> Option<Hist> {
-        let cfg = WorldCfg::regtest(rng.bytes::<32>());
+        let mut cfg = WorldCfg::regtest(rng.bytes::<32>());
+        // a third of the worlds have a payment velocity limit that a few approvals exhaust, so that approval
+        // requests are refused and HTLCs for refused (never approved) hashes are then offered
+        if rng.chance(1, 3) {
+            cfg.policy.global_velocity_control = lightning_signer::util::velocity::VelocityControlSpec {
+                limit_msat: rng.range(60_000, 300_000) * 1000,
+                interval_type: lightning_signer::util::velocity::VelocityControlIntervalType::Hourly,
+            };
+        }
         let max_fee = cfg.policy.max_routing_fee_msat;
         let world = World::new(cfg);
         let secp = Secp256k1::new();
@@ -533,6 +541,12 @@ fn run_history(rng: &mut Rng, r: &mut Report, cli: &Cli, shard: usize, index: u6
                 };
                 h.log.push(json!(["approve", hex::encode(&hash.0[..4]), amount, format!("{:?}", res)]));
                 h.observe_held();
+                if let Ok(false) = res {
+                    r.count("approval_refused");
+                    if h.pool[k].approved_msat.is_none() && h.pool[k].held_msat.is_none() {
+                        r.count("approval_refused_for_never_approved_hash");
+                    }
+                }
                 if let Ok(true) = res {
                     if h.pool[k].approved_msat.is_none() {
                         r.count("approved");
